@@ -21,6 +21,15 @@ pub enum Position {
 }
 
 impl Position {
+    /// Returns the range of the original code this position refers to, if it refers to it.
+    #[inline]
+    pub(crate) fn get_source_range(&self) -> Option<(usize, usize)> {
+        match self {
+            Self::LineNumberReference { start, end, .. } => Some((*start, *end)),
+            Self::LineNumber { .. } | Self::Any { .. } => None,
+        }
+    }
+
     /// Creates a new position with line number information and content.
     #[inline]
     pub fn line_number(content: impl Into<Cow<'static, str>>, line_number: usize) -> Position {
@@ -238,6 +247,12 @@ impl Token {
             | Position::LineNumberReference { line_number, .. } => Some(*line_number),
             Position::Any { .. } => None,
         }
+    }
+
+    /// Returns the range of the original code this token refers to, if it refers to it.
+    #[inline]
+    pub(crate) fn get_source_range(&self) -> Option<(usize, usize)> {
+        self.position.get_source_range()
     }
 
     /// Replaces the token's content with new content while preserving line number information.
